@@ -222,6 +222,12 @@ def emit() -> str:
                         if tgt.endswith(("num_file_creations", "num_file_deletions")):
                             writers.append((f"{rel}:{cls.name}.{fn.name}", _u(st)))
 
+    # the table says WHO writes the counters (a set per method): within one method the rows are sorted by text, so that swapping two
+    # independent writes (round 7, harmless rewrite H7 of pre_timestep) is not reported; the ORDER inside the file-system methods is
+    # covered by their translation (fsxlate) or their textual snapshot (move_file)
+    keys = list(dict.fromkeys(k for k, _ in writers))
+    writers = [(k, t) for k in keys for t in sorted(t2 for k2, t2 in writers if k2 == k)]
+
     L = ["import PrimaiteModel.Model.FileSystemNode", "namespace Primaite.Gen.FileSystemNode", "open Primaite.FileSystem", ""]
     L += _lean_sites("nodeSites", "every statement of `Node` and of the classes under hardware/nodes/ that mentions `self.file_system`: "
                      "(method, statement, enclosing conditions outermost first)", node_rows)
